@@ -206,9 +206,14 @@ fn check_stream(dir: &Path, roller: &RollSpec, active: &Path, attempted: &[RecId
 /// Every chunk that existed before (except the archive at the top index) is still present byte-for-byte
 /// (the active chunk may have grown) under a managed name or the active path.
 fn check_retained(before: &[(String, Vec<u8>)], after: &[(String, Vec<u8>)], roller: &RollSpec, what: &str) -> CaseResult {
-    let top = format!("archive+{}", window_count(roller).saturating_sub(1));
+    let count = window_count(roller);
+    let top = format!("archive+{}", count.saturating_sub(1));
+    // the content of the top slot may go when the rotation shifts the slot below onto it (or, with a window of one, puts
+    // the rolled file there); with that slot vacant - the state an interrupted rotation leaves behind - nothing is
+    // shifted onto it, the window has room, and the completed rotation keeps it
+    let top_may_go = count <= 1 || before.iter().any(|(n, _)| *n == format!("archive+{}", count - 2));
     for (name, content) in before {
-        if *name == top || content.is_empty() {
+        if (*name == top && top_may_go) || content.is_empty() {
             continue;
         }
         let kept = after.iter().any(|(_, c)| if name == "active" { c.starts_with(content) } else { c == content });
